@@ -4,19 +4,6 @@ use vstd::prelude::*;
 use crate::error::Error;
 
 verus! {
-
-#[verifier::external_type_specification]
-#[verifier::external_body]
-pub struct ExVerifierKey(crate::proof_system::widget::VerifierKey);
-
-#[verifier::external_type_specification]
-#[verifier::external_body]
-pub struct ExProverKey(crate::proof_system::ProverKey);
-
-#[verifier::external_type_specification]
-#[verifier::external_body]
-pub struct ExCommitKey2(crate::commitment_scheme::CommitKey);
-
 /// `u64::from_be_bytes` (std; total)
 #[verifier::external_body]
 pub fn v_u64_from_be_bytes(b: [u8; 8]) -> (r: u64) {
@@ -29,20 +16,6 @@ pub fn v_arr8(s: &[u8]) -> (r: [u8; 8])
     requires s@.len() == 8
 {
     <[u8; 8]>::try_from(s).expect("checked len")
-}
-
-/// `VerifierKey::from_slice(b)?` (dusk-bytes checked decoder of 15 compressed points + n): total on every slice
-#[verifier::external_body]
-pub fn v_verifier_key_from_slice(b: &[u8]) -> (r: Result<crate::proof_system::widget::VerifierKey, Error>) {
-    use dusk_bytes::DeserializableSlice;
-    Ok(crate::proof_system::widget::VerifierKey::from_slice(b)?)
-}
-
-/// `OpeningKey::from_slice(b)?`: total on every slice
-#[verifier::external_body]
-pub fn v_opening_key_from_slice(b: &[u8]) -> (r: Result<crate::commitment_scheme::OpeningKey, Error>) {
-    use dusk_bytes::DeserializableSlice;
-    Ok(crate::commitment_scheme::OpeningKey::from_slice(b)?)
 }
 
 /// the big-endian u64 list decoder `chunks_exact(8).map(try_from).map(from_be_bytes).map(as usize).collect()`:
@@ -64,35 +37,6 @@ pub fn v_as_ref_bytes<B: AsRef<[u8]>>(b: &B) -> (r: &[u8]) {
     b.as_ref()
 }
 
-/// `ProverKey::from_slice(b)?` (crate decoder, its own unit is C17.ProverKey::from_slice): total on every slice
-#[verifier::external_body]
-pub fn v_prover_key_from_slice(b: &[u8]) -> (r: Result<crate::proof_system::ProverKey, Error>) {
-    Ok(crate::proof_system::ProverKey::from_slice(b)?)
-}
-
-/// `prover_key.n` (field of the opaque ProverKey)
-#[verifier::external_body]
-pub fn v_prover_key_n(pk: &crate::proof_system::ProverKey) -> (r: usize) {
-    pk.n
-}
-
-/// `dusk_bytes::Error::InvalidData.into()`
-#[verifier::external_body]
-pub fn v_invalid_data() -> (r: Error) {
-    dusk_bytes::Error::InvalidData.into()
-}
-
-/// `x.checked_next_power_of_two() != Some(y)` (std)
-#[verifier::external_body]
-pub fn v_npot_ne(x: usize, y: usize) -> (r: bool) {
-    x.checked_next_power_of_two() != Some(y)
-}
-
-/// `CommitKey::from_raw_var_bytes(b)?`
-#[verifier::external_body]
-pub fn v_commit_key_from_raw(b: &[u8]) -> (r: Result<crate::commitment_scheme::CommitKey, Error>) {
-    Ok(crate::commitment_scheme::CommitKey::from_raw_var_bytes(b)?)
-}
 /// `u16::from_be_bytes` (std; total)
 #[verifier::external_body]
 pub fn v_u16_from_be_bytes(b: [u8; 2]) -> (r: u16) {
@@ -104,4 +48,11 @@ pub fn v_u16_from_be_bytes(b: [u8; 2]) -> (r: u16) {
 pub fn v_u32_be_to_usize(b: [u8; 4]) -> (r: Result<usize, Error>) {
     usize::try_from(u32::from_be_bytes(b)).map_err(|_| Error::InvalidCompressedCircuit)
 }
+
+/// `x.checked_next_power_of_two() != Some(y)` (std)
+#[verifier::external_body]
+pub fn v_npot_ne(x: usize, y: usize) -> (r: bool) {
+    x.checked_next_power_of_two() != Some(y)
+}
+
 } // verus!
